@@ -24,6 +24,9 @@ def mkval(spec):
         return vtargets.Point(1, 2)
     if spec == 'needsargs':
         return vtargets.NeedsArgs(7, 'here')      # can be pickled by the child, cannot be rebuilt by the parent
+    if spec == 'lock':
+        import threading
+        return threading.Lock()                    # cannot even be pickled by the child
     if isinstance(spec, int):
         return spec
     raise ValueError(spec)
@@ -50,6 +53,14 @@ class StatefulMixin:
             self.user_state = nv                # US_ASSIGN
         if ending == 'raise':
             raise ValueError('end')
+        if ending == 'spin':
+            # never ends on its own: only a termination request gets the worker out of here
+            import time
+            try:
+                while True:
+                    time.sleep(0.002)
+            finally:
+                pass
         return ('seen', seen)
 
 
